@@ -279,12 +279,18 @@ def _block_eigh_projector(p_block: np.ndarray, verbose: bool = False):
             col_id_cmplt = col_end_cmplt
             if verbose:
                 print(eigvecs.shape[1], "eigenvectors are found.", flush=True)
+        else:
+            # No unit eigenvector in this sub-block: all of its coordinates
+            # belong to the complement used for the remaining problem.
+            col_end_cmplt = col_id_cmplt + (end - begin)
+            cmplt[begin:end, col_id_cmplt:col_end_cmplt] = np.eye(end - begin)
+            col_id_cmplt = col_end_cmplt
 
     rank = int(round(np.trace(p_block)))
     if rank > 0:
         if verbose:
             print("Solving complementary projector.", flush=True)
-        cmplt = cmplt[:, :col_end_cmplt]
+        cmplt = cmplt[:, :col_id_cmplt]
         p_block_rem = cmplt.T @ p_block @ cmplt
         eigvecs = eigh_projector(p_block_rem, verbose=verbose)
         if verbose:
